@@ -52,6 +52,30 @@ def sense_id(b):
     return "other"
 
 
+HELD = []       # (exception object, outcome recorded when it was raised)
+
+
+def reinspect(chk, where):
+    """an error the caller still holds keeps reporting what the target sent with THAT completion"""
+    n = 0
+    for ex, o in HELD:
+        if o["exc"] != "CheckCondition" or o["key"] == 255:
+            continue
+        n += 1
+        try:
+            now = (int(ex.data["sense_key"]), int(ex.asc), int(ex.ascq))
+        except Exception as e2:
+            now = ("raised", type(e2).__name__, "")
+        if now != (o["key"], o["asc"], o["ascq"]):
+            chk.violation({"clause": "SenseFaithful", "tr": where, "route": "held", "st": 2, "s": "", "raw": False,
+                           "prev": "history", "cls": "", "field": "",
+                           "detail": {"when_raised": [o["key"], o["asc"], o["ascq"]], "inspected_later": list(now)},
+                           "what": "a CheckCondition held by the caller, inspected after later commands failed"},
+                          dedup=("SenseFaithful", where, "held"))
+    del HELD[:]
+    return n
+
+
 def observe(fn, cmd_of):
     """run fn(); project the outcome onto the spec's outcome record"""
     o = {"how": "returned", "exc": "", "key": 0, "asc": 0, "ascq": 0, "raw": "none"}
@@ -61,6 +85,7 @@ def observe(fn, cmd_of):
     except Exception as ex:
         o["how"] = "raised"
         o["exc"] = type(ex).__name__
+        HELD.append((ex, o))
         if o["exc"] == "CheckCondition":
             try:
                 o["key"] = int(ex.data["sense_key"])
@@ -232,6 +257,7 @@ def run(chk, replay=None):
                                   dedup=(clause, c["tr"], route, c["st"] if c["st"] in rep else "other", c["s"],
                                          c["raw"], c["prev"] != "none"))
         ev.replayed(len(events))
+        ev.cov["held_errors_reinspected_cases"] = reinspect(chk, "cases")
         ev.sample({"spec_case": cases[10], "observed": events[10]["o"]})
         ev.cov["facade_method_calls_with_failing_target"] = every_facade_method(w, chk, events)
         # code -> spec: random fault sequences on a few long-lived command objects
@@ -249,6 +275,7 @@ def run(chk, replay=None):
                 o = observe(lambda: dev.execute(cmd, en_raw_sense=raw) and None, lambda: cmd)
                 seq.append({"tr": tr, "st": st, "s": s, "raw": raw, "o": o, "route": "direct", "prev": "history"})
                 ev.case((tr, "seq", st, s, raw, len(seq)))
+            ev.cov["held_errors_reinspected_" + tr] = reinspect(chk, tr)
         allev = events + seq
         vs, stt = tlc.judge_traces("Trace_Transport", "Trace_Transport.cfg", allev, name="c07tr")
         ev.judged("Trace_Transport", stt, len(allev))
